@@ -107,6 +107,16 @@ class ProfEnv:
         os.chmod(os.path.join(self.fake, "go"), 0o755)
         self.nopath = os.path.join(self.root, "nopath")
         os.makedirs(self.nopath, exist_ok=True)
+        # a `go` that is found on PATH (executable bit set) but cannot be started
+        self.unstartable = {}
+        for how, content in (("badinterp", b"#!/nonexistent/interpreter\nexit 0\n"), ("noformat", b"\x00\x01not an executable\n"),
+                             ("empty", b"")):
+            d = os.path.join(self.root, "unstartable-" + how)
+            os.makedirs(d, exist_ok=True)
+            with open(os.path.join(d, "go"), "wb") as f:
+                f.write(content)
+            os.chmod(os.path.join(d, "go"), 0o755)
+            self.unstartable[how] = d
         return None
 
     def new_case_dir(self):
@@ -189,13 +199,15 @@ class ProfEnv:
                 pass
         self.created.clear()
 
-    def run(self, binpath, args, listing, mode="ok", k=None, missing=False, fsize=None, kill=False, expect_size=None):
+    def run(self, binpath, args, listing, mode="ok", k=None, missing=False, fsize=None, kill=False, expect_size=None, unstartable=None):
         """One execution of the real profiler. mode: ok | fail (tool exits 3 after k bytes) ; kill: the tool emits k bytes
         and hangs, the profiler is killed with SIGKILL once the copy goroutine has consumed them."""
         with self.lock:
             self.executions += 1
         env = dict(os.environ)
         env["PATH"] = self.nopath if missing else self.fake + ":/usr/bin:/bin"
+        if unstartable:
+            env["PATH"] = self.unstartable[unstartable] + ":" + self.nopath
         env["FAKE_LISTING"] = listing
         env["FAKE_MODE"] = "hang" if kill else mode
         env["FAKE_K"] = "" if k is None else str(k)
@@ -354,6 +366,28 @@ def c17_histories(rng, tier, total_of, small_of):
         hs.append(dict(first=[dict(kind="fail", k=k)], small=True))
     hs.append(dict(first=[dict(kind="ok")], small=True))
     hs.append(dict(first=[dict(kind="missing")]))
+    # the tool is found on PATH but cannot be started (missing interpreter, not an executable format, empty file)
+    for how in ("badinterp", "noformat", "empty"):
+        hs.append(dict(first=[dict(kind="unstartable", how=how)]))
+    hs.append(dict(first=[dict(kind="unstartable", how="badinterp")], small=True))
+    hs.append(dict(first=[dict(kind="ok", variant="v2"), dict(kind="unstartable", how="noformat")]))
+    # binaries with long file names: up to 229 bytes the temporary name (name + 11 + ".tmp-" + up to 10 digits) fits
+    # NAME_MAX = 255; from 239 on it never fits although the final name (name + 11) does, and every run fails before
+    # anything is written (230..238 depend on the random suffix and are left out)
+    for nl in (200, 229, 239, 244):
+        for k in (0, 5000, big):
+            hs.append(dict(first=[dict(kind="fail", k=k)], namelen=nl))
+        hs.append(dict(first=[dict(kind="fsize", lim=4096)], namelen=nl))
+        hs.append(dict(first=[dict(kind="ok")], namelen=nl))
+        hs.append(dict(first=[dict(kind="unstartable", how="badinterp")], namelen=nl))
+    # an incident on one build, then the binary is REPLACED by a build with a shorter listing and profiled normally
+    for k in (4031, 4032, 8128, big - 4096, big - 1, big):
+        hs.append(dict(first=[dict(kind="kill", k=k)], final_variant="v2"))
+    hs.append(dict(first=[dict(kind="fail", k=big)], final_variant="v2"))
+    hs.append(dict(first=[dict(kind="ok")], final_variant="v2"))
+    hs.append(dict(first=[dict(kind="fsize", lim=8192)], final_variant="v2"))
+    hs.append(dict(first=[dict(kind="kill", k=big), dict(kind="kill", k=3000, variant="v2")], final_variant="v2"))
+    hs.append(dict(first=[], seed=[dict(kind="T", prefix=65 + big)], final_variant="v2"))
     hs.append(dict(first=[dict(kind="ok")]))                                  # plain cache hit
     hs.append(dict(first=[dict(kind="ok", variant="v2")]))                    # the binary changed since the cache was written
     hs.append(dict(first=[dict(kind="ok", variant="v2"), dict(kind="fail", k=5000)]))
@@ -361,13 +395,15 @@ def c17_histories(rng, tier, total_of, small_of):
     for _ in range(6 if tier == "quick" else 60):
         steps = []
         for _i in range(rng.randint(2, 4)):
-            kind = rng.choice(["kill", "fail", "fsize", "missing", "ok2"])
+            kind = rng.choice(["kill", "fail", "fsize", "missing", "ok2", "unstartable"])
             if kind == "kill" or kind == "fail":
                 steps.append(dict(kind=kind, k=rng.choice(ks)))
             elif kind == "fsize":
                 steps.append(dict(kind="fsize", lim=rng.choice(lims)))
             elif kind == "ok2":
                 steps.append(dict(kind="ok", variant="v2"))
+            elif kind == "unstartable":
+                steps.append(dict(kind="unstartable", how=rng.choice(["badinterp", "noformat", "empty"])))
             else:
                 steps.append(dict(kind="missing"))
         hs.append(dict(first=steps))
@@ -391,7 +427,9 @@ def c17_histories(rng, tier, total_of, small_of):
 def c17_run_history(env, hist, an, L):
     """Runs one history on the real profiler. Returns dict with the observations and the H line for the model."""
     d = env.new_case_dir()
-    binpath, h1 = env.place(d, an, "v1")
+    base = "target" if not hist.get("namelen") else ("n" * hist["namelen"])
+    no_temp = len(base) + 11 + 5 + 1 > 255        # no temporary name fits: the run fails before it writes anything
+    binpath, h1 = env.place(d, an, "v1", base=base)
     _, h2 = env.targets[(an, "v2")]
     small = bool(hist.get("small"))
     listing_path, listing, l1name = (L["p3"], L["text3"], "l3") if small else (L["p1"], L["text"], "l1")
@@ -428,12 +466,13 @@ def c17_run_history(env, hist, an, L):
                 c = full1[:65 + 300]
             env.seed_file(binpath, "F", c)
             inits.append("F %d %s" % (pid, xhex(c)))
-    steps = list(hist["first"]) + [dict(kind="ok", final=True)]
+    fv = hist.get("final_variant", "v1")      # the build the closing normal run profiles (v2: another, SHORTER listing)
+    steps = list(hist["first"]) + [dict(kind="ok", final=True, variant=fv)]
     cur_variant = "v1"
     for i, st in enumerate(steps):
         variant = st.get("variant", "v1")
         if variant != cur_variant:
-            env.place(d, an, variant)
+            env.place(d, an, variant, base=base)
             cur_variant = variant
         hsh, lp, lb, lname = (h1, listing_path, lbytes, l1name) if variant == "v1" else (h2, listing2_path, l2bytes, "l2")
         kind = st["kind"]
@@ -449,12 +488,18 @@ def c17_run_history(env, hist, an, L):
         elif kind == "missing":
             r = env.run(binpath, args, lp, missing=True)
             toks.append("C %d %s %d missing 0" % (pid, xhex(hsh), i + 1))
+        elif kind == "unstartable":
+            # for the protocol this is a tool that fails without any output
+            r = env.run(binpath, args, lp, unstartable=st["how"])
+            toks.append("C %d %s %d missing 0" % (pid, xhex(hsh), i + 1))
         elif kind == "fsize":
             r = env.run(binpath, args, lp, fsize=st["lim"])
             toks.append("IS:%d %d %s %d ok 1 @%s:0:%d" % (st["lim"], pid, xhex(hsh), i + 1, lname, len(lb)))
         else:
             r = env.run(binpath, args, lp)
             toks.append("C %d %s %d ok 1 @%s:0:%d" % (pid, xhex(hsh), i + 1, lname, len(lb)))
+        if no_temp:
+            toks[-1] = "C %d %s %d missing 0" % (pid, xhex(hsh), i + 1)
         snap = env.snapshot(binpath)
         obs.append(dict(step=st, rc=r["rc"], killed=r["killed"], dumped=(r["rc"] == 0 or "Objdump File:" in r["stderr"]), cached="Using cached objdump." in r["stderr"],
                         stdout=r["stdout"], stderr_tail=r["stderr"][-400:], files=sorted("%s:%s" % (kd, describe(c)) for (kd, c) in snap),
@@ -466,6 +511,8 @@ def c17_run_history(env, hist, an, L):
     env.cleanup_case(binpath)
     shutil.rmtree(d, ignore_errors=True)
     hline = "H %d %d %d %s %d %s" % (pid, BUFSIZE, len(inits), " ".join(inits), len(steps), " ".join(toks))
+    if fv == "v2":
+        return dict(pid=pid, hline=hline, obs=obs, reuse=reuse, hist=hist, arch=an, h1=h2, listing=listing2, cold=L["cold2"])
     return dict(pid=pid, hline=hline, obs=obs, reuse=reuse, hist=hist, arch=an, h1=h1, listing=listing, cold=L["cold3"] if small else L["cold"])
 
 
@@ -517,7 +564,11 @@ def _c17_body(ctx, env, rng, replay):
         r3 = env.run(b3, ["-format", "config"], p3)
         env.snapshot(b3)
         env.cleanup_case(b3)
-        listings[an] = dict(p1=p1, p2=p2, p3=p3, text=text, text2=text2, text3=text3, cold=r, cold3=r3, sites=sites)
+        b2, _h = env.place(d, an, "v2", base="cold2")
+        r2 = env.run(b2, ["-format", "config"], p2)
+        env.snapshot(b2)
+        env.cleanup_case(b2)
+        listings[an] = dict(p1=p1, p2=p2, p3=p3, text=text, text2=text2, text3=text3, cold=r, cold3=r3, cold2=r2, sites=sites)
         if an != "ARM" and (r["rc"] != 0 or "names:" not in r["stdout"]):
             raise RuntimeError("cold run failed: " + r["stderr"][-800:])
         if an == "ARM" and not (r["rc"] != 0 and "names:" not in r["stdout"]):
@@ -620,7 +671,7 @@ def _c17_body(ctx, env, rng, replay):
     reused = sum(1 for res in results if res["reuse"]["cached"] and res["arch"] != "ARM")
     ctx.coverage.update(dict(
         evaluations=env.executions, histories=len(results), distinct_nontrivial=len(nontrivial),
-        rule="histories of the real seccomp-profiler binary (fake `go tool objdump` on PATH emitting a synthetic listing of 9-13 KB with syscall sites up to its last line): first runs cut by SIGKILL after the tool wrote k bytes, tool exiting non-zero after k bytes, tool missing, write failing at a file size limit (RLIMIT_FSIZE), the binary replaced by another one at the same path, planted temporary files with every class of prefix, planted final files that are not for this binary; k and limits around 0, 64/65, 4031 (=4096-65), multiples of 4096, the end; then a normal run whose profile is compared with a cold-cache run and whose cache directory after every step is compared with the extracted model (names modulo the random suffix); non-trivial = distinct history whose first part left a file behind, failed, or started from planted files",
+        rule="histories of the real seccomp-profiler binary (fake `go tool objdump` on PATH emitting a synthetic listing of 9-13 KB with syscall sites up to its last line): first runs cut by SIGKILL after the tool wrote k bytes, tool exiting non-zero after k bytes, tool missing, tool present on PATH but not startable (missing interpreter, no executable format, empty file), binaries whose file name has 200/229 bytes (temporary name fits NAME_MAX) and 239/244 bytes (only the final name fits: every run must fail), write failing at a file size limit (RLIMIT_FSIZE), the binary replaced by another one (with a shorter listing) at the same path - in the middle of a history and before the closing normal run -, planted temporary files with every class of prefix, planted final files that are not for this binary; k and limits around 0, 64/65, 4031 (=4096-65), multiples of 4096, the end; then a normal run whose profile is compared with a cold-cache run and whose cache directory after every step is compared with the extracted model (names modulo the random suffix); non-trivial = distinct history whose first part left a file behind, failed, or started from planted files",
         traces_validated_against_impl=ncorr, counterexamples=nbad, cache_reused_without_tool=reused,
         input_distribution=dict(step_kinds=dist, arches={an: sum(1 for r in results if r["arch"] == an) for an in arch_plan}),
         samples=samples))
@@ -637,7 +688,15 @@ def _c17_body(ctx, env, rng, replay):
 
 
 # ------------------------------------------------------------------------------------------------ C18
-SEPS = [",", ";", " ", "\t", ", ", " ;", ",,", "\n"]
+SEPS = [",", ";", " ", "\t", ", ", " ;", ",,", "\n", "\r\n", "\r", "\v", "\f", "\u0085", "\u00a0", "\u2003", "\u3000", "\u2028", "\u1680"]
+# unicode.IsSpace (Go): the white space characters of the flag values
+GO_SPACES = "\t\n\v\f\r \u0085\u00a0\u1680\u2000\u2001\u2002\u2003\u2004\u2005\u2006\u2007\u2008\u2009\u200a\u2028\u2029\u202f\u205f\u3000"
+
+
+def ascii_seps(v):
+    """The Coq model of the flag values works on bytes and knows the ASCII separators only: white space outside ASCII
+    is handed to it as a blank (the implementation gets the value as written)."""
+    return "".join(" " if (ch in GO_SPACES and ord(ch) > 127) else ch for ch in v)
 
 
 def c18_flag_occurrences(rng, names):
@@ -658,7 +717,7 @@ def c18_flag_occurrences(rng, names):
 
 
 def py_fields(s):
-    return [x for x in re.split(r"[\t\n\v\f\r ,;]+", s) if x]
+    return [x for x in re.split("[" + GO_SPACES + ",;]+", s) if x]
 
 
 def bpf_run(prog, nr, archw):
@@ -817,7 +876,7 @@ def _c18_body(ctx, env, rng, replay):
         found = [(n, tbl[n]) for n in c["sites"] if n in tbl]
         res["found"] = found
         lines.append("N %d %s %d %s %d %s %d %s" % (i, c["arch"], len(found), " ".join("%d %s" % (n, xhex(s)) for (n, s) in found),
-                                                    len(c["bl"]), " ".join(xhex(v) for v in c["bl"]), len(c["al"]), " ".join(xhex(v) for v in c["al"])))
+                                                    len(c["bl"]), " ".join(xhex(ascii_seps(v)) for v in c["bl"]), len(c["al"]), " ".join(xhex(ascii_seps(v)) for v in c["al"])))
     model = {}
     for ln in run_profdriver(lines):
         f = ln.split()
@@ -1008,7 +1067,7 @@ def _c18_body(ctx, env, rng, replay):
             break
     ctx.coverage.update(dict(
         evaluations=env.executions + nevents, profiler_runs=env.executions, events_run=nevents, distinct_nontrivial=len(nontrivial),
-        rule="the real seccomp-profiler binary on synthetic listings built from a site model (call sites and raw SYSCALL / INT $0x80 sites, hex and decimal numbers, repeated sites, numbers without a name) for amd64 and 386 targets (arm: refused), x -b / -allow values (none, disjoint, overlapping, unknown names, names of other architectures, number-like names, repeated flags, separators , ; space tab newline, empty values) x -format config|code (+ -d once per architecture); the whole table as found set once per architecture and format; stdout compared with the extracted model (profile_names_id) and with the property text evaluated in Python; YAML loaded through go-ucfg exactly like cmd/sandbox and compiled: instruction-exact against the extracted compile of profile_policy and evaluated on every number of the table (+3 without a name) against decide and against 'allow iff listed, else ERRNO|EPERM'; Go source parsed with go/parser (one built with go vet); non-trivial = distinct (arch, found set, flags, format) with a non-empty profile and at least one flag or the whole table",
+        rule="the real seccomp-profiler binary on synthetic listings built from a site model (call sites and raw SYSCALL / INT $0x80 sites, hex and decimal numbers, repeated sites, numbers without a name) for amd64 and 386 targets (arm: refused), x -b / -allow values (none, disjoint, overlapping, unknown names, names of other architectures, number-like names, repeated flags, separators , ; space tab newline CR CRLF VT FF and white space outside ASCII (U+0085, U+00A0, U+1680, U+2003, U+2028, U+3000), empty values) x -format config|code (+ -d once per architecture); the whole table as found set once per architecture and format; stdout compared with the extracted model (profile_names_id) and with the property text evaluated in Python; YAML loaded through go-ucfg exactly like cmd/sandbox and compiled: instruction-exact against the extracted compile of profile_policy and evaluated on every number of the table (+3 without a name) against decide and against 'allow iff listed, else ERRNO|EPERM'; Go source parsed with go/parser (one built with go vet); non-trivial = distinct (arch, found set, flags, format) with a non-empty profile and at least one flag or the whole table",
         traces_validated_against_impl=ncorr, counterexamples=nbad, correspondence_differences=ndiff, go_source_built=built,
         input_distribution=dict(kinds=dist), samples=samples))
     ctx.assumptions += ["gopkg.in/yaml.v2 (emitter), go-ucfg (loader) and text/template are exercised, not modelled",
